@@ -1,6 +1,12 @@
 (* eng_rawdb.ml — model side of engine `rawdb` (C01, C02, C13): replays the history of an
    `I` line on the extracted allocator model (Rawdb/Alloc.v) and prints, per step, the
-   result, the complete allocator state and sampled region bytes in the harness's format. *)
+   result, the complete allocator state and sampled region bytes in the harness's format.
+   ORACLE (C02): after every step the extracted boolean invariant `InvBool.inv_b` (proved
+   equivalent to `Inv`: Props/C02.v C02_inv_b_spec) is evaluated on the state; this state is the
+   one the harness compares field by field with the real allocator (O = E), so on a step the
+   implementation agreed with, `false` is a violation of C02 on the real code.  It can never
+   fire while the model is unchanged (C02_inv_b_reachable); it reports the first failing clause
+   (index into InvBool.inv_clauses = order of the fields of Inv). *)
 open BinNums
 open Datatypes
 open Base
@@ -101,12 +107,19 @@ let samples (s : st) (step : int) : string =
     let vals = L.map (fun o -> si (s.mem (n_of_z (Z.add start (Z.of_int o))))) (sample_offsets len step id) in
     Printf.sprintf "%d@%d:%s" id len (S.concat "." vals)) live)
 
+let inv_verdict (s : st) (step : int) : string list =
+  if InvBool.inv_b s then [] else begin
+    let cl = InvBool.inv_clauses s in
+    let rec first i = function [] -> -1 | b :: r -> if b then first (i + 1) r else i in
+    [ Printf.sprintf "S C02:inv-b-false-on-agreed-state clause=%d step=%d" (first 0 cl) step ]
+  end
+
 let exec (t : string list) : string list =
   match t with
   | cfg :: ops ->
       let min_len = n_of_string (L.nth (S.split_on_char ':' cfg) 1) in
       let s = ref (init min_len) in
-      let out = ref [ "init " ^ dump !s ] in
+      let out = ref (L.rev_append (inv_verdict !s (-1)) [ "init " ^ dump !s ]) in
       let stop = ref false in
       L.iteri (fun step o ->
         if not !stop && o <> "" then begin
@@ -118,7 +131,8 @@ let exec (t : string list) : string list =
             | Err e -> "err:" ^ err_name e
             | Panic -> stop := true; "panic" in
           if !stop then out := Printf.sprintf "%d %s" step rs :: !out
-          else out := Printf.sprintf "%d %s %s | %s" step rs (dump !s) (samples !s step) :: !out
+          else out := L.rev_append (inv_verdict !s step)
+                        (Printf.sprintf "%d %s %s | %s" step rs (dump !s) (samples !s step) :: !out)
         end) ops;
       L.rev !out
   | [] -> [ "bad-input" ]
